@@ -18,6 +18,100 @@ type comparer struct {
 	cfgs   map[uintptr]*model.Node // trees of the pre-filled *Config fields (by pointer in the snapshot)
 	cfgExp map[*field]*model.Node  // modelled contents of the mentioned *Config fields
 	ctx    func() string
+	// top / gotTop: the type and the whole value this Unpack call produced
+	top    *stype
+	gotTop reflect.Value
+	fresh  map[reflect.Type]int // see freshInline; computed on first use
+}
+
+// freshInline counts, per pointee struct type, the inlined pointers of the
+// value Unpack produced that it allocated in this call (they are not the twin
+// of a pointer of the pre-filled value).
+func (k *comparer) freshInline(st *stype, v reflect.Value, old map[uintptr]bool) {
+	for _, f := range st.fields {
+		if f.unexported || f.ignore {
+			continue
+		}
+		fv := v.Field(f.idx)
+		each := func(est *stype, e reflect.Value) {
+			if e = deref(e); e.IsValid() {
+				k.freshInline(est, e, old)
+			}
+		}
+		switch f.kind {
+		case kStruct:
+			k.freshInline(f.sub, fv, old)
+		case kPtrStruct:
+			if fv.IsNil() {
+				continue
+			}
+			if f.inline && !old[fv.Pointer()] {
+				k.fresh[f.sub.typ]++
+			}
+			k.freshInline(f.sub, fv.Elem(), old)
+		case kSliceStruct:
+			for i := 0; i < fv.Len(); i++ {
+				each(f.sub, fv.Index(i))
+			}
+		case kArrayComp:
+			if f.elem.kind == kStruct {
+				for i := 0; i < fv.Len(); i++ {
+					each(f.elem.sub, fv.Index(i))
+				}
+			}
+		case kMapStruct, kMapPtrStruct:
+			if !fv.IsNil() {
+				for _, key := range fv.MapKeys() {
+					each(f.sub, fv.MapIndex(key))
+				}
+			}
+		}
+	}
+}
+
+// leftNilSuffix: the part of the signature that tells an inline pointer that
+// is never allocated from one that stayed nil while the same Unpack call did
+// allocate another nil inline pointer of the same struct type.
+func (k *comparer) leftNilSuffix(t reflect.Type) string {
+	if k.top == nil || !k.gotTop.IsValid() {
+		return ""
+	}
+	if k.fresh == nil {
+		k.fresh = map[reflect.Type]int{}
+		old := map[uintptr]bool{}
+		for _, p := range k.twin {
+			old[p] = true
+		}
+		k.freshInline(k.top, k.gotTop, old)
+	}
+	if k.fresh[t] > 0 {
+		return ":another-nil-inline-pointer-of-its-type-was-allocated-in-the-same-call"
+	}
+	return ""
+}
+
+// inlineLeftNil: the first inline pointer field of st that was nil (pre), for
+// which the settings c have something (so the model allocated it) and which
+// the value Unpack produced still holds as nil.
+func inlineLeftNil(st *stype, pre, exp, got reflect.Value, c *cval) *field {
+	if c == nil || c.fields == nil || !exp.IsValid() || !got.IsValid() {
+		return nil
+	}
+	for _, f := range st.fields {
+		if f.kind != kPtrStruct || !f.inline || f.unexported || f.ignore {
+			continue
+		}
+		if cv := c.fields[f]; cv.absent() || cv.real == 0 {
+			continue
+		}
+		if p := sub(pre, f.idx); p.IsValid() && !p.IsNil() {
+			continue
+		}
+		if !exp.Field(f.idx).IsNil() && got.Field(f.idx).IsNil() {
+			return f
+		}
+	}
+	return nil
 }
 
 func (k *comparer) violate(sig, path string, exp, got reflect.Value, note string) {
@@ -140,6 +234,10 @@ func (k *comparer) cmpField(f *field, pre, exp, got reflect.Value, cv *cval, pc 
 			if onlyAfterNestedInline(f.sub, cv) {
 				sig += ":settings-only-after-a-nested-inline-struct"
 			}
+			if where == "array-elem" {
+				sig += "@" + where
+			}
+			sig += k.leftNilSuffix(f.sub.typ)
 			k.violate(sig, path, exp, got, fmt.Sprintf(" (settings %s)", renderGo(cv.toGo())))
 		case got.IsNil():
 			k.violate(men, path, exp, got, "")
@@ -183,6 +281,27 @@ func (k *comparer) cmpField(f *field, pre, exp, got reflect.Value, cv *cval, pc 
 					src = "global-" + site
 				}
 				sig = "replaced-struct-list-element-inherits-old-fields:" + src + ":" + pc.pol
+			}
+			if f.kind == kSliceStruct && exp.Len() == got.Len() {
+				// an element whose nil inline pointer has settings and stayed nil
+				pl := base.Len()
+				for i := 0; i < exp.Len(); i++ {
+					j, epre := i, reflect.Value{}
+					switch {
+					case pc.pol == "append":
+						j = i - pl
+					case pc.pol == "default" && i < pl:
+						epre = deref(base.Index(i))
+					}
+					if j < 0 || j >= len(cv.list) {
+						continue
+					}
+					if lf := inlineLeftNil(f.sub, epre, deref(exp.Index(i)), deref(got.Index(i)), cv.list[j]); lf != nil {
+						sig = "mentioned-field-wrong:ptr-struct:inline-pointer-left-nil@" + f.shape() + "-elem" + k.leftNilSuffix(lf.sub.typ)
+						path += "[" + strconv.Itoa(i) + "]." + lf.goName
+						break
+					}
+				}
 			}
 			k.violate(sig, path, exp, got, fmt.Sprintf(" (pre-filled %s, setting %s, policy %s from %s; index-wise merge would give %s)",
 				render(base), renderGo(cv.toGo()), pc.pol, pc.src, render(def)))
@@ -307,6 +426,15 @@ func (k *comparer) cmpField(f *field, pre, exp, got reflect.Value, cv *cval, pc 
 				sig := "unmentioned-field-changed:" + f.shape() + "-entry@" + where
 				if mentioned {
 					sig = men
+				}
+				if mentioned && gv.IsValid() && f.kind != kMapPrim {
+					var epre reflect.Value
+					if pre.IsValid() && !pre.IsNil() && pc.pol != "replace" {
+						epre = deref(pre.MapIndex(key)) // (a replaced map holds new entries alone)
+					}
+					if lf := inlineLeftNil(f.sub, epre, deref(exp.MapIndex(key)), deref(gv), cv.keys[ks]); lf != nil {
+						sig = "mentioned-field-wrong:ptr-struct:inline-pointer-left-nil@" + f.shape() + "-entry" + k.leftNilSuffix(lf.sub.typ)
+					}
 				}
 				if !gv.IsValid() {
 					gv = reflect.Zero(f.typ.Elem())
